@@ -278,11 +278,29 @@ pub fn exec_op(op: &Value) -> Value {
                 let dst = base.join(format!("ctesim.copy.{}", std::process::id())).join(op["copy_name"].as_str().unwrap_or("copia"));
                 let _ = std::fs::remove_dir_all(&dst);
                 std::fs::create_dir_all(&dst).map_err(|e| e.to_string())?;
-                for f in std::fs::read_dir(&src).map_err(|e| e.to_string())? {
-                    let f = f.map_err(|e| e.to_string())?.path();
-                    if f.is_file() {
-                        std::fs::copy(&f, dst.join(f.file_name().unwrap())).map_err(|e| e.to_string())?;
+                // fs.second_project: the directory also holds a later-sorting working copy of the
+                // project with another content (zz_variante.ctehexml), created before or after
+                // the project file itself: the order in which the file system lists the two must
+                // not decide which one is converted
+                let second = op["second_project"].as_str().unwrap_or("");
+                let mut files: Vec<std::path::PathBuf> = std::fs::read_dir(&src).map_err(|e| e.to_string())?.filter_map(|e| e.ok().map(|e| e.path())).filter(|p| p.is_file()).collect();
+                files.sort();
+                let write_variant = |dst: &std::path::Path| -> Result<(), String> {
+                    if let Some(pf) = files.iter().find(|p| p.extension().map(|x| x == "ctehexml").unwrap_or(false)) {
+                        let t = String::from_utf8_lossy(&std::fs::read(pf).map_err(|e| e.to_string())?).to_string();
+                        let t = t.replacen("</nomPro>", " (variante)</nomPro>", 1).replacen("ABSORPTANCE   =            0.6", "ABSORPTANCE   =            0.9", 1);
+                        std::fs::write(dst.join("zz_variante.ctehexml"), t).map_err(|e| e.to_string())?;
                     }
+                    Ok(())
+                };
+                if second == "created_first" {
+                    write_variant(&dst)?;
+                }
+                for f in &files {
+                    std::fs::copy(f, dst.join(f.file_name().unwrap())).map_err(|e| e.to_string())?;
+                }
+                if second == "created_last" {
+                    write_variant(&dst)?;
                 }
                 let extra = op["extra"].as_bool().unwrap_or(false);
                 let r = hulc2model::collect_hulc_data(dst.to_string_lossy().as_ref(), extra, extra);
